@@ -4,11 +4,13 @@ mod astdump;
 mod compile;
 mod edits;
 mod exec;
+mod faults;
 mod heap;
 mod patterns;
 mod positions;
 mod progs;
 mod progs_gen;
+mod rewrites;
 mod scope;
 mod server;
 mod server_gen;
@@ -26,7 +28,11 @@ fn main() {
     "mir-dump" => compile::mir_dump_main(rest),
     "mir-types" => compile::mir_types_main(rest),
     "run-programs" => progs::main(rest),
+    "mutate" => faults::main(rest),
+    "front-run" => faults::front_run(rest),
     "gen-programs" => progs_gen::main(rest),
+    "rewrite" => rewrites::main(rest),
+    "rewrite-break" => rewrites::break_main(rest),
     "edits-run" => edits::run(rest),
     "heap-drive" => heap::drive(rest),
     "heap-replay" => heap::replay(rest),
